@@ -27,6 +27,28 @@ theorem inv_step {env : Env} (he : EnvOk env) {s : St} (hi : Inv env s) (op : Op
     have g := getMocker_spec hi b key
     exact (cancelMocker_spec he g.1 _).1
   | reset b => exact (cancelKeys_spec he b _ hi).1
+  | keep b key =>
+    have g := (getMocker_spec hi b key).1
+    exact ⟨g.saved, g.txt, g.reg, g.mg, g.ck⟩
+  | applyH b key k =>
+    simp only [step]
+    cases s.handle b key with
+    | none => exact hi
+    | some id => exact (applyCb_spec he hi id k).1
+  | retH b key =>
+    simp only [step]
+    cases s.handle b key with
+    | none => exact hi
+    | some id =>
+      simp only []
+      split
+      · exact hi
+      · exact (applyImp_spec he (whens_spec hi id).1 _ _).1
+  | cancelH b key =>
+    simp only [step]
+    cases s.handle b key with
+    | none => exact hi
+    | some id => exact (cancelMocker_spec he hi id).1
 
 /-- **Invariant, all histories.** It holds after every finite history from the pristine state. -/
 theorem reachable_inv {env : Env} (he : EnvOk env) (ops : List Op) : ∀ {s : St}, Inv env s → Inv env (run env s ops) := by
@@ -136,13 +158,18 @@ theorem reset_idempotent {env : Env} (he : EnvOk env) (ops : List Op) (b : Nat) 
 
 /-- **Operations on one target never change another.** `Apply`/`Return`/`When`/`Origin`/`Cancel` issued for a key whose
     target is `key % 1000` leave the bytes of every other function untouched (in any state satisfying the invariant, so in
-    particular after any history); `Reset b` touches only targets of keys in `b`'s cache list. -/
+    particular after any history); `Reset b` touches only targets of keys in `b`'s cache list; operations through a kept
+    handle touch only the target of the mocker the handle refers to; a bare lookup touches nothing. -/
 theorem other_targets_untouched {env : Env} (he : EnvOk env) {s : St} (hi : Inv env s) (op : Op) (f : Nat) :
     (match op with
       | .apply _ key _ _ => key % 1000 ≠ f
       | .ret _ key _ => key % 1000 ≠ f
       | .cancel _ key => key % 1000 ≠ f
-      | .reset b => ∀ k, k ∈ s.keys b → k % 1000 ≠ f) →
+      | .reset b => ∀ k, k ∈ s.keys b → k % 1000 ≠ f
+      | .keep _ _ => True
+      | .applyH b key _ => ∀ id, s.handle b key = some id → (s.mockers id).target ≠ f
+      | .retH b key => ∀ id, s.handle b key = some id → (s.mockers id).target ≠ f
+      | .cancelH b key => ∀ id, s.handle b key = some id → (s.mockers id).target ≠ f) →
     (step env s op).1.text f = s.text f := by
   cases op with
   | apply b key k origin =>
@@ -172,6 +199,36 @@ theorem other_targets_untouched {env : Env} (he : EnvOk env) {s : St} (hi : Inv 
   | reset b =>
     intro hne
     exact (cancelKeys_spec he b (s.keys b) hi).2.2.2.2.2.2.1 f hne
+  | keep b key =>
+    intro _
+    show (getMocker s b key).1.text f = _
+    rw [(getMocker_spec hi b key).2.1]
+  | applyH b key k =>
+    intro hne
+    simp only [step]
+    cases hh : s.handle b key with
+    | none => rfl
+    | some id =>
+      simp only []
+      rw [(applyCb_spec he hi id k).2.1]
+      exact (applyImp_spec he hi id (.cb k)).2.1 f (fun h => hne id hh h.symm)
+  | retH b key =>
+    intro hne
+    simp only [step]
+    cases hh : s.handle b key with
+    | none => rfl
+    | some id =>
+      simp only []
+      split
+      · rfl
+      · obtain ⟨w1, w2, _, _, w5⟩ := whens_spec hi id
+        rw [(applyImp_spec he w1 id (.stub s.nStubs)).2.1 f (by rw [(w5 id).1]; exact fun h => hne id hh h.symm), w2]
+  | cancelH b key =>
+    intro hne
+    simp only [step]
+    cases hh : s.handle b key with
+    | none => rfl
+    | some id => exact (cancelMocker_spec he hi id).2.1 f (fun h => hne id hh h.symm)
 
 /-- **Re-mock after Reset works.** After any history followed by `Reset b`, `b.…Apply(cb k)` on a key of `b` (no `Origin`)
     succeeds whenever goom's own preconditions hold for the target (longer than the jump, first byte not the NOP sentinel),
@@ -212,11 +269,26 @@ theorem remock_after_reset {env : Env} (he : EnvOk env) (ops : List Op) (b key k
   have c := applyCb_spec he g1 (getMocker s1 b key).2 k
   have hstep : step env s1 (.apply b key k none) = applyCb env (getMocker s1 b key).1 (getMocker s1 b key).2 k := rfl
   rw [hstep]
-  refine ⟨by rw [c.2.2]; exact hok, ?_⟩
+  refine ⟨by rw [c.2.2.1]; exact hok, ?_⟩
   have := a.2.2.1 hok
   rw [hfresh.2] at this
   rw [c.2.1]
   exact this
+
+/-- **A kept handle that is re-applied is live again for the builder.**  If the handle kept for (b, key) is the builder's
+    cache entry and `Apply` through it succeeds (e.g. after the handle's own `Cancel`), the next builder lookup of the same
+    key returns that same mocker and creates nothing — so `Cancel` after a fresh lookup and `Reset` (`reset_restores`) reach the live
+    mock.  (This is what `m.canceled = false` in `applyBy*` is for.) -/
+theorem relookup_after_handle_apply {env : Env} (he : EnvOk env) {s : St} (hi : Inv env s) (b key k id : Nat)
+    (hh : s.handle b key = some id) (hc : s.cache b key = some id)
+    (hok : (step env s (.applyH b key k)).2 = none) :
+    getMocker (step env s (.applyH b key k)).1 b key = ((step env s (.applyH b key k)).1, id) := by
+  have hst : step env s (.applyH b key k) = applyCb env s id k := by simp [step, hh]
+  rw [hst] at hok ⊢
+  obtain ⟨_, _, _, c4, c5⟩ := applyCb_spec he hi id k
+  have hcache : (applyCb env s id k).1.cache b key = some id := by rw [c4]; exact hc
+  unfold getMocker
+  simp [hcache, c5 hok]
 
 /-- the hypotheses of the theorems above are satisfiable by a non-trivial state: two builders mock the same 16-byte
     function one after the other, the first builder resets: the image is pristine again and the invariant's
